@@ -46,6 +46,9 @@ BodyCarries(bytes, hints, msgs, enc) ==
        LET f == p.frames[i] IN
        IF f.flag = 0 THEN f.payload = msgs[i]
        ELSE f.flag = 1 /\ enc # "" /\ DecompBy(HintAt(hints, f.off), enc) = [ok |-> TRUE, v |-> msgs[i]]
+\* every frame flagged as compressed holds a complete stream of the announced encoding (an empty payload is not one)
+FlaggedDecode(bytes, hints, enc) == \A i \in 1..Len(ParseFrames(bytes).frames) :
+                                      LET f == ParseFrames(bytes).frames[i] IN f.flag = 1 => (enc # "" /\ DecompBy(HintAt(hints, f.off), enc).ok)
 AllFlagged(bytes) == \A i \in 1..Len(ParseFrames(bytes).frames) : ParseFrames(bytes).frames[i].flag = 1
 NoneFlagged(bytes) == \A i \in 1..Len(ParseFrames(bytes).frames) : ParseFrames(bytes).frames[i].flag = 0
 
@@ -112,11 +115,13 @@ ResponseClauses(stim, status, head, bytes, hints, trs, offered) ==
         <<"C02.TrueStatusOnWire", StatusCount(statusList) = 1 => /\ StatusHeaderOK(statusList, FinalCode(stim))
                                                                     /\ (~sc.end.ok => MessageHeaderOK(statusList, sc.end.msg) /\ DetailsHeaderOK(statusList, sc.end.details))>>,
         <<"C03.BodyIsTheMessages", BodyCarries(bytes, hints, SentMsgs(stim), enc)>>,
+        <<"C05.CompressedWithAnnouncedEncoding", FlaggedDecode(bytes, hints, enc)>>,
         <<"C05.EncodingOnlyAsNegotiated", enc # "" => (enc \in SeqToSet(stim.server.send) /\ enc \in offered)>>,
         <<"C05.AnnouncedIffChosen", Len(Values(head, "grpc-encoding")) <= 1 /\ (enc = "" => NoneFlagged(bytes))>>,
         <<"C05.OptOutRespected", (sc.no_compress /\ Single(stim.shape) /\ ReturnsResponse(stim)) => NoneFlagged(bytes)>>,
         <<"C08.InitialMetadataOnWire", ReturnsResponse(stim) => MetadataCarried(head, sc.init_meta)>>,
         <<"C08.ErrorMetadataOnWire", (~sc.end.ok /\ StatusCount(statusList) = 1) => MetadataCarried(statusList, sc.end.meta)>>,
+        <<"C08.TrailerMetadataOnWire", (sc.end.ok /\ "meta" \in DOMAIN sc.end /\ ~Single(stim.shape) /\ StatusCount(statusList) = 1) => MetadataCarried(statusList, sc.end.meta)>>,
         <<"C08.NoForgedResponseHeader",
              \A n \in Reserved \ {"grpc-status", "grpc-message"} :
                /\ (ReturnsResponse(stim) => \A i \in 1..Len(sc.init_meta) : sc.init_meta[i].n = n => sc.init_meta[i].v \notin SeqToSet(Values(head, n)))
@@ -178,5 +183,7 @@ ClientClauses(stim, cli) ==
        <<"C02.SameMessagesInOrder", ~sc.fail_before => (cli.got_head /\ cli.msgs = sc.msgs)>>,
        <<"C08.InitialMetadataReceived", ~sc.fail_before => MetadataReceived(cli.init, sc.init_meta)>>,
        <<"C02.SameStatus", ~sc.end.ok => (~cli.ok => StatusEquals(cli.st, sc.end))>>,
-       <<"C08.ErrorMetadataReceived", (~sc.end.ok /\ ~cli.ok) => MetadataReceived(cli.st.meta, sc.end.meta)>> >>
+       <<"C08.ErrorMetadataReceived", (~sc.end.ok /\ ~cli.ok) => MetadataReceived(cli.st.meta, sc.end.meta)>>,
+       \* a successful stream that ends with trailing metadata (an OK status carrying entries): the caller finds them in trailers()
+       <<"C08.TrailerMetadataReceived", (sc.end.ok /\ "meta" \in DOMAIN sc.end /\ cli.ok) => MetadataReceived(cli.trailers, sc.end.meta)>> >>
 =============================================================================
